@@ -13,3 +13,10 @@ Proof. reflexivity. Qed.
 
 Lemma skel_derive_ok : skel_derive = ["call preComputeNextKey"; "call updateCurrentKey"].
 Proof. reflexivity. Qed.
+
+(* first use of a group: the own chain key is looked up and, on a miss, created and stored inside ONE
+   critical section of the (exclusive) message mutex - the shape of Model.C11_FirstUse.fu_step *)
+Lemma skel_own_chain_key_ok :
+  skel_own_chain_key = ["lock s.messageMutex"; "defer unlock s.messageMutex";
+                        "call getDeviceChainKeyForGroupAndDevice"; "call newDeviceChainKey"; "call registerChainKey"].
+Proof. reflexivity. Qed.
